@@ -3,12 +3,13 @@ from num_common import *
 import bp
 
 EXPLANATION = ('C02: real Find_Root executed with the user function as an uninterpreted F (EA, up to K Ridder iterations from entry): exits only without a sign change and after a diagnostic, every evaluation point and the result lie in the bracket, '
+               'inductive step over the Ridder loop from an ARBITRARY bracket state satisfying the invariant (so: for every number of iterations) - evaluations and results between the two ends, no exit, the back edge re-establishes the invariant; '
                'a zero bracket end is returned as is, either order of the ends gives the same run, linear functions are solved exactly in one step; all divisors / sqrt arguments are valid; '
                'accuracy clause per run: a return within the first accuracy_iterations iterations is accepted only if two evaluated points of opposite sign (or an evaluated zero) lie within the requested accuracy of the result - by the intermediate value theorem that is exactly when every continuous function consistent with the run changes sign there. '
                'BP (CBMC on the IR-derived C, IEEE doubles): the entry logic for all pairs of end values incl. NaN and products that underflow.')
 BOUNDS = {'quick': {'K_iterations': 2, 'accuracy_iterations': 2}, 'thorough': {'K_iterations': 3, 'accuracy_iterations': 3}}
 K_ACC = [2]
-NOT_DECIDED = ['the accuracy clause for returns after more than accuracy_iterations iterations (and: from iteration 2 on it is violated on the unchanged tree, known finding C02/accuracy/successive-iterates, which hides other accuracy defects of later iterations)', 'behaviour beyond K iterations', 'rounding in x4', 'brackets beyond +-1e90 (the sentinel -9.9e99 of the first stopping test)']
+NOT_DECIDED = ['the accuracy clause for returns after more than accuracy_iterations iterations (and: from iteration 2 on it is violated on the unchanged tree, known finding C02/accuracy/successive-iterates, which hides other accuracy defects of later iterations)', 'run-level claims (order of the ends, accuracy, evaluation counts) beyond K iterations - the bracket-safety claims hold for every iteration by the loop step', 'rounding in x4', 'brackets beyond +-1e90 (the sentinel -9.9e99 of the first stopping test)']
 ASSUMPTIONS = ['F is an arbitrary function of its argument (uninterpreted), doubles exact reals in EA', 'paths with more than 2+2K evaluations are cut off (outside the bound)', 'BP: the user function returns arbitrary doubles']
 
 XL, XR, ACC = z3.Real('xl'), z3.Real('xr'), z3.Real('acc')
@@ -57,6 +58,53 @@ def job_entry(order, K):
     res.append(ob(tag + '/coverage', 'discharged' if nret and nexit else 'broken', detail='%d returning, %d exiting, %d cut-off paths' % (nret, nexit, ncut), key='C02/coverage'))
     return res
 
+def job_loop_step():
+    """inductive step over Ridder's loop: at the loop header the loop-carried state is replaced by an ARBITRARY bracket state satisfying the invariant
+       (both ends inside the original bracket, distinct, f1 = F(x1), f2 = F(x2), f1 f2 < 0, any iteration number, any previous estimate); one real iteration is executed.
+       Every evaluation and every returned value lies between the two ends, the process never exits, and the back edge re-establishes the invariant with a bracket inside the old one.
+       With the entry paths (K = 1) this covers every number of iterations."""
+    res = []; tag = 'root/loop-step'; fresh = {}
+    X1, X2, RES, RV0 = z3.Real('h_x1'), z3.Real('h_x2'), z3.Real('h_result'), z3.Real('h_retval'); I0 = z3.Int('h_i')
+    fns = [n for n in G['m'].funcs if '9Find_RootE' in n]
+    if len(fns) != 1: return [ob(tag + '/function', 'broken', detail=str(fns))]
+    f = G['m'].funcs[fns[0]]; need = ('x1', 'x2', 'f1', 'f2', 'result', 'i')
+    heads = [b for b in loop_headers(f) if set(need) <= set(I.dest.lstrip('%').split('.')[0] for I in f.blocks[b] if I.op == 'phi')]
+    if len(heads) != 1: return [ob(tag + '/loop-state', 'undecided', key='C02/loop-step', detail='no unique loop header carrying %s: %s' % (need, heads))]
+    def handler(it, f_, blk, regs, st):
+        for I in f_.blocks[blk]:
+            if I.op != 'phi': continue
+            base = I.dest.lstrip('%').split('.')[0]
+            v = {'x1': X1, 'x2': X2, 'f1': F1(X1), 'f2': F1(X2), 'result': RES, 'i': I0, 'retval': RV0}.get(base)
+            if v is None:
+                if str(I.ty) == 'i1' or getattr(I.ty, 'w', 0) == 1: v = 1          # the carried loop condition i < Max_Iterations holds at the header
+                else: v = z3.Real('h_' + base)
+            regs[I.dest] = v; fresh[base] = I.dest
+        st.pc += [XL <= X1, X1 <= XR, XL <= X2, X2 <= XR, X1 != X2, F1(X1) * F1(X2) < 0, I0 >= 0, I0 <= 49]
+        st.events.append(('havoc', len([e for e in st.events if e[0] == 'call'])))
+    it = Interp(G['m'], intercept=user_f(maxcalls=8), limits=Limits(max_paths=4000, feas_ms=2000, max_seconds=200)); it.havoc[(fns[0], heads[0])] = handler
+    st = it.new_state(); st.pc += [XL < XR, ACC > 0]
+    ps = it.execute('@verif_c02_root', [XL, XR, ACC], st)
+    lo, hi = Min(X1, X2), Max(X1, X2); mv = {'xl': XL, 'xr': XR, 'acc': ACC, 'h_x1': X1, 'h_x2': X2, 'h_f1': F1(X1), 'h_f2': F1(X2), 'h_result': RES, 'h_i': I0, 'loop_step': 1}; nret = nback = 0
+    for pi, p in enumerate(ps):
+        hv = [e for e in p.st.events if e[0] == 'havoc']
+        if not hv: continue                                   # paths that end before the loop (zero end, no sign change): entry logic, decided by job_entry
+        cs = calls(p.st)[hv[0][1]:]; pc = p.st.pc; mvp = dict(mv, calls_x=[c[1][0] for c in cs], calls_f=[c[2] for c in cs])
+        for ci, c in enumerate(cs):
+            res.append(prove('%s/evaluates-inside-current-bracket[%d,%d]' % (tag, pi, ci), pc, z3.And(lo <= toR(c[1][0]), toR(c[1][0]) <= hi), 30000, mvp, key='C02/loop-step/evaluates-inside', tactic='nra'))
+        res += divisor_obligations('%s/p%d' % (tag, pi), p.st, model_vars=mvp, key='C02/division-or-sqrt', timeout_ms=30000, tactic='nra')
+        if p.end is None:
+            nret += 1; res.append(prove('%s/result-inside-current-bracket[%d]' % (tag, pi), pc, z3.And(lo <= toR(p.ret), toR(p.ret) <= hi), 60000, mvp, key='C02/loop-step/result-inside', tactic='nra'))
+        elif p.end.kind == 'backedge':
+            nback += 1; be = [e for e in p.st.events if e[0] == 'backedge'][-1][2]; g = lambda k: toR(be[fresh[k]])
+            inv = z3.And(lo <= g('x1'), g('x1') <= hi, lo <= g('x2'), g('x2') <= hi, g('x1') != g('x2'), g('f1') == F1(g('x1')), g('f2') == F1(g('x2')), g('f1') * g('f2') < 0, toI(be[fresh['i']]) == I0 + 1)
+            res.append(prove('%s/back-edge-re-establishes-the-bracket-invariant[%d]' % (tag, pi), pc + alg_assumptions(p.st), inv, 60000, mvp, key='C02/loop-step/invariant', tactic='nra', sample=(nback == 1)))
+        elif p.end.kind == 'exit':
+            res.append(prove('%s/never-exits-from-a-valid-bracket[%d]' % (tag, pi), pc, z3.BoolVal(False), 60000, mvp, key='C02/valid-bracket-never-exits', tactic='nra'))
+        elif p.end.kind != 'cutoff':
+            res.append(prove('%s/no-%s[%d]' % (tag, p.end.kind, pi), pc, z3.BoolVal(False), 20000, mvp, key='C02/' + p.end.kind, detail=str(p.end)))
+    res.append(ob(tag + '/coverage', 'discharged' if nret and nback else 'broken', key='C02/coverage', detail='%d returning, %d back-edge paths from the arbitrary bracket state' % (nret, nback)))
+    return res
+
 def job_order(K):
     """either order of the ends: the two runs evaluate F at the same points and return the identical term"""
     res = []; tag = 'root/order/K%d' % K
@@ -100,7 +148,7 @@ def job_bp(h):
 
 def jobs(ctx):
     module(ctx); K = BOUNDS[ctx.tier]['K_iterations']; K_ACC[0] = BOUNDS[ctx.tier]['accuracy_iterations']
-    J = [(job_entry, ('lt', K)), (job_entry, ('gt', K)), (job_entry, ('eq', 1)), (job_order, (min(K, 2),)), (job_linear, ())]
+    J = [(job_entry, ('lt', K)), (job_entry, ('gt', K)), (job_entry, ('eq', 1)), (job_order, (min(K, 2),)), (job_linear, ()), (job_loop_step, ())]
     for h in bp.harnesses('C02.c', ctx.tier): J.append((job_bp, (h,)))
     return J
 
@@ -161,6 +209,15 @@ def replay(ctx, o):
         if r['status'] != 'ok': return True, 'native Find_Root on F(x)=%r x + %r, bracket [%r,%r]: %s' % (mu, nu, xl, xr, r['status'])
         return abs(r['ret'] * mu + nu) > 1e-9 * max(abs(nu), abs(mu * r['ret']), 1e-300), 'native Find_Root on the line %r x + %r returned %r (root %r), %d evaluations' % (mu, nu, r['ret'], -nu / mu, len(r['calls']))
     xs = [q2f(q) for q in m['calls_x']]; fs = [q2f(q) for q in m['calls_f']]
+    if m.get('loop_step'):
+        # the model is an arbitrary loop state, not a run from the entry: it is reproduced by entering Find_Root with that bracket (first iteration, previous estimate = sentinel)
+        a, b = q2f(m['h_x1']), q2f(m['h_x2']); f = table_cb([a, b] + xs, [q2f(m['h_f1']), q2f(m['h_f2'])] + fs); r = nat.call(so, 'verif_c02_root', [a, b, acc], fcb=f)
+        lo, hi = min(a, b), max(a, b); out = [c[0][0] for c in r.get('calls', []) if not (lo <= c[0][0] <= hi)]
+        desc = 'native Find_Root entered with the bracket state of the model [%r,%r], F = %r, %r, accuracy %r: %s; evaluations outside the bracket: %s' % (a, b, f(a), f(b), acc, r.get('ret', r['status']), out or 'none')
+        if f(a) * f(b) >= 0: return False, desc
+        if r['status'] == 'exit': return True, desc
+        if r['status'] != 'ok': return False, desc
+        return bool(out) or not (lo <= r['ret'] <= hi), desc
     if key.startswith('C02/accuracy/'):
         f, zeros = far_zero_cb(xs, fs, q2f(m['ret'])); r = nat.call(so, 'verif_c02_root', [xl, xr, acc], fcb=f)
         if r['status'] != 'ok': return False, 'native Find_Root ended with %s' % r['status']
